@@ -490,6 +490,38 @@ func TestC05PreCancelled(t *testing.T) {
 			worst = started.Load()
 		}
 	}
+	// users mode: the pool of users comes up while the context is already (or just being)
+	// cancelled; nothing is in flight, so the run returns at once - far from the completion timeout
+	slowRuns := int64(0)
+	for i := 0; i < kit.N(40, 400); i++ {
+		scenario := func(*f1testing.T) f1testing.RunFn { return func(*f1testing.T) {} }
+		ctx, cancel := context.WithCancel(context.Background())
+		if i%2 == 0 {
+			cancel()
+		} else {
+			go func() { time.Sleep(time.Duration(r.Range(0, 200)) * time.Microsecond); cancel() }()
+		}
+		t0 := time.Now()
+		out, hung, dump := runkit.DoTimeout(runkit.Config{Mode: "users", Scenario: scenario, Ctx: ctx, Wait: 4 * time.Second,
+			Opts: options.RunOptions{MaxDuration: time.Second, Concurrency: int(kit.Pick(r, 8, 50, 200)), IgnoreDropped: true}}, 30*time.Second)
+		cancel()
+		if hung {
+			o.Fail("run-did-not-return", "a users run with a cancelled context did not return: "+dump[:min(len(dump), 2000)])
+			return
+		}
+		if out.Err != nil {
+			o.Fail("run-error", fmt.Sprintf("pre-cancelled users run failed: %v", out.Err))
+			return
+		}
+		if el := time.Since(t0); el > 2*time.Second {
+			slowRuns++
+			if slowRuns == 1 {
+				o.Fail("cancelled-users-run-waits", fmt.Sprintf("users run whose context was cancelled as it began, instant iterations, completion timeout 4s: Run.Do returned after %s although nothing was in flight", el))
+			}
+		}
+	}
+	o.Count("pre-cancelled", "users mode")
+	o.Case("c05_ok", []string{"0", "0", "0", kit.I(slowRuns), "0", kit.Str("pre-cancelled/users")}, "T", "pre-cancelled", "users", "nt")
 	o.Stat("pre_cancelled_runs", n)
 	// c05_ok late_starts unfinished started_after_deadline slow leaked
 	o.Case("c05_ok", []string{"0", "0", kit.I(worst), "0", "0", kit.Str("pre-cancelled/rate-triggers")}, "T", "pre-cancelled", "nt")
